@@ -514,13 +514,28 @@ fn gen() -> GenFn {
             if g.chance(0.03) {
                 text.clear();
             }
-            let ctype = match g.below(12) {
+            let ctype = match g.below(16) {
                 0 => None,
                 1 => Some("text/plain"),
                 2 => Some("application/json; charset=utf-8"),
                 3 => Some("application/vnd.api+json"),
                 4 => Some("APPLICATION/JSON"),
                 5 => Some("application/jsonx"),
+                // structured-syntax suffixes with parameters, parameters that merely look like a JSON type
+                6 => Some(*g.pick(&[
+                    "application/vnd.api+json; charset=utf-8",
+                    "application/vnd.api+json;charset=UTF-8",
+                    "application/ld+json; profile=\"x\"",
+                    "application/octet-stream; format=x+json",
+                    "text/plain; note=application/json",
+                    "application/json;charset=UTF-8",
+                    "application/json ; charset=utf-8",
+                    "application/problem+JSON",
+                    "application/+json",
+                    "application/json+x",
+                    "json",
+                    "",
+                ])),
                 _ => Some("application/json"),
             };
             ("json", text, ctype.map(|s| s.to_string()))
